@@ -413,9 +413,10 @@ impl Check for C08 {
             }
         }
     }
-    fn required_classes(&self, _b: &str, t: Tier) -> Vec<&'static str> {
+    fn required_classes(&self, b: &str, t: Tier) -> Vec<&'static str> {
         let mut v = vec!["ints:all-8-16-bit", "f64:every-exponent", "f64:subnormal-and-zero", "f64:random", "ints:wide", "raw:literals"];
-        v.push(if t == Tier::Thorough { "f32:exhaustive-block" } else { "f32:stratified-block" });
+        // the exhaustive f32 scan belongs to the full-scale native build; scaled-down builds stratify
+        v.push(if t == Tier::Thorough && b == "native-rel" { "f32:exhaustive-block" } else { "f32:stratified-block" });
         v
     }
 }
